@@ -376,9 +376,9 @@ SCHEMES.update({
 # ----------------------------------------------------------------------------- batch 3
 
 def etrs_extra(s, ctx, v, out):
-    # one actual signer: a threshold of two must never verify
+    # a threshold above the number of actual signers must never verify
     if s.ver.get('ver2') == '1':
-        v.bad('threshold-overstated', 'a ring signature with one signer verified for threshold 2')
+        v.bad('threshold-overstated', 'a ring signature verified for a threshold one above the number of its signers')
 
 
 def o_mpss(s, ctx, v, out):
@@ -427,7 +427,7 @@ def o_match(s, ctx, v, out):
 
 SCHEMES.update({
     'etrs': Spec('C05', 5, dict(pp='ec', td3='bn', y3='bn', ry0='bn', h0='ec', pk0='ec', c00='bn', c01='bn', r00='bn', r01='bn', msg='bytes'),
-                 sig_oracle(extra=etrs_extra), opts=lambda rng: dict(k=rng.below(3), n=7 if rng.chance(0.04) else 3),
+                 sig_oracle(extra=etrs_extra), opts=lambda rng: dict(k=rng.below(3), n=7 if rng.chance(0.04) else 3, cls=1 if rng.chance(0.4) else 0),
                  extra_faults=[('forge', 'v_forgeext')]),
     'smlers': Spec('C05', 5, dict(pp='ec', td='bn', h0='ec', pk0='ec', sc00='bn', sc01='bn', sr00='bn', sr01='bn', tau0='ec', c00='bn',
                                   c01='bn', r00='bn', r01='bn', tau1='ec', c10='bn', msg='bytes'),
